@@ -23,16 +23,20 @@ private def insertSorted (x : Nat × List Nat) : List (Nat × List Nat) → List
 
 /-- `respsend <ver> <pc|agg> <seed> <entries>`  entries: `addr:nonce:request|-` separated by `;`
     impl: `panic=0 tot=resp,rfc,classic,bytes,failed per=addr:rfc,classic,bytes,failed|.. recv=addr:len,..` -/
-def opRespSend (args : List String) (impl : String) : Verdict :=
+def opRespSend (args0 : List String) (impl : String) : Verdict :=
+  -- (4 arguments: a single batch; 5: a PRELUDE batch answered by the same responder before the measured one)
+  let args := if args0.length = 4 then args0 ++ ["~"] else args0
   match args with
-  | [v, kind, seedH, entriesS] =>
+  | [v, kind, seedH, entriesS, preS] =>
     let ver : Version := if v = "I" then .ietf else .google
-    let entries : List (Nat × Bytes × Bytes) := (if entriesS = "~" ∨ entriesS = "" then [] else entriesS.splitOn ";").filterMap fun e =>
+    let parseEntries (es : String) : List (Nat × Bytes × Bytes) := (if es = "~" ∨ es = "" then [] else es.splitOn ";").filterMap fun e =>
       match e.splitOn ":" with
       | [a, n, q] => match unhex n, (if q = "-" then some [] else unhex q) with
         | some nb, some qb => some (a.toNat!, nb, qb)
         | _, _ => none
       | _ => none
+    let entries := parseEntries entriesS
+    let prelude := parseEntries preS
     match unhex seedH with
     | none => bad "respsend: hex"
     | some seed =>
@@ -41,7 +45,9 @@ def opRespSend (args : List String) (impl : String) : Verdict :=
     let n := entries.length
     let nUnreach := (entries.filter fun e => e.1 ≥ 50).length
     let label := "respsend:" ++ v ++ ":" ++ kind ++ ":n=" ++ (if n ≤ 3 then toString n else "many") ++ ":unreachable=" ++
-      (if nUnreach = 0 then "0" else if nUnreach = n then "all" else "some")
+      (if nUnreach = 0 then "0" else if nUnreach = n then "all" else "some") ++
+      (if prelude.isEmpty then "" else ":after-batch-of=" ++ (if prelude.length ≤ 3 then toString prelude.length else "many") ++
+        (if prelude.all (·.1 < 50) then "" else "-with-failed-sends"))
     if kvLookup imp "panic" ≠ "0" then l1 label "C08,C17: send_responses panicked" else
     let tot := (kvLookup imp "tot").splitOn "," |>.map (·.toNat!)
     let t (i : Nat) := tot.getD i 0
@@ -87,8 +93,15 @@ def opRespSend (args : List String) (impl : String) : Verdict :=
         | none =>
           match acc.2.find? (fun e => norm e.1 = d.1 ∧ (Spec.RT.verifyResponse S Sha512.hash p ltpk e.2.2 e.2.1 d.2).isOk) with
           | some e => (none, acc.2.erase e)
-          | none => (some ("C02,C09,C17: a datagram received at address " ++ toString d.1 ++ " (" ++ toString d.2.length ++
-              " bytes) is not a valid response for any request still outstanding for that address"), acc.2))
+          | none =>
+            -- why: the verifier's reason for the first request outstanding for that address (attributes the failure:
+            -- a certificate that does not verify under the seed's long-term key is C10's)
+            let why : String := match acc.2.find? (fun e => norm e.1 = d.1) with
+              | some e => (match Spec.RT.verifyResponse S Sha512.hash p ltpk e.2.2 e.2.1 d.2 with | .error w => w | .ok _ => "")
+              | none => "nothing outstanding"
+            let certPart := ["CERT", "DELE", "delegation", "missing certificate", "missing delegation"].any fun k => (why.splitOn k).length > 1
+            (some ((if certPart then "C10,C02,C09: " else "C02,C09,C17: ") ++ "a datagram received at address " ++ toString d.1 ++ " (" ++ toString d.2.length ++
+              " bytes) is not a valid response for any request still outstanding for that address (" ++ why ++ ")"), acc.2))
         (none, entries))
     let l1v : Option String :=
       if contentFail.isSome then contentFail
@@ -105,7 +118,16 @@ def opRespSend (args : List String) (impl : String) : Verdict :=
       let dummyC := List.replicate 32 (1 : UInt8)
       match Server.new realEnv seed dummyI dummyC 64 with
       | .ok s0 =>
-        let r0 := match ver with | .ietf => s0.ietf | .google => s0.classic
+        let r00 := match ver with | .ietf => s0.ietf | .google => s0.classic
+        -- the prelude batch through the same (model) responder
+        let rPre : Res Responder := if prelude.isEmpty then .ok r00 else
+          (prelude.foldl (fun (acc : Res Responder) e => acc.bind fun r =>
+            Responder.add realEnv r (match ver with | .ietf => e.2.2 | .google => e.2.1) e.2.1 e.1) (Res.ok r00)).bind fun r =>
+            (Responder.sendResponsesF (fun a _ => decide (a < 50)) realEnv r false (1700000000, 0) []).bind fun x => Res.ok (Responder.reset x.1)
+        match rPre with
+        | .err => l2 label "model send_responses (prelude batch) returned err"
+        | .panic site => l2 label ("model predicts a panic in the prelude batch at " ++ site)
+        | .ok r0 =>
         let added : Res Responder := entries.foldl (fun acc e => acc.bind fun r =>
           Responder.add realEnv r (match ver with | .ietf => e.2.2 | .google => e.2.1) e.2.1 e.1) (.ok r0)
         match added.bind fun r => Responder.sendResponsesF (fun a _ => decide (a < 50)) realEnv r false (1700000000, 0) [] with
